@@ -234,7 +234,8 @@ TanOk(e) ==
 \* C12
 IsIntegerValued(y, f) == ZEq(ZShl(ZFloorShr(y, f), f), y)
 \* the reference value V (a Q number) lies clearly outside the destination's range: V (1 - 2^-18) > max + 1 ulp
-ClearlyTooBig(V, e) == ZLt(ZAdd(QOfFix(ZAdd(MaxV(e.D), ZI(1)), FD(e)), ZFloorShr(V, 18)), V)
+\* beyond the maximum by more than 2^-18 V + 64 ulp (at least the error C15 allows the computed result)
+ClearlyTooBig(V, e) == ZLt(ZAdd(ZAdd(QOfFix(ZAdd(MaxV(e.D), ZI(1)), FD(e)), ZFloorShr(V, 18)), ZShl(UlpQ(e), 6)), V)
 \* "results that do not fit yield Err": an Ok whose true result is clearly out of range is a violation
 FitsOrErr(e) ==
   ~MOk(e) \/
@@ -246,7 +247,11 @@ FitsOrErr(e) ==
                           \* beyond the maximum by more than the error C15 allows the computed power
                           IN ~ZLt(ZAdd(ZAdd(QOfFix(ZAdd(MaxV(e.D), ZI(1)), FD(e)), ZFloorShr(V, 18)), QMul(V, PowRel(e, yq, yl))), V)
     [] e.fn = "powi" -> e.n <= 1 \/ e.n * ZBitLen(ZJ(e.x)) > 9000
-                        \/ ~ZLt(ZShl(ZAdd(MaxV(e.D), ZI(2)), FS(e) * e.n), ZShl(ZAbs(ZPow(ZJ(e.x), e.n)), FD(e)))
+                        \* |x^n| beyond the maximum by more than the error C15 allows the computed power
+                        \* (units 2^-(fd + fs n), as in PowiOk)
+                        \/ LET big == ZMax(ZPow2(FS(e)), ZAbs(ZJ(e.x))) IN
+                           ~ZLt(ZAdd(ZShl(ZAdd(MaxV(e.D), ZI(2)), FS(e) * e.n), ZMul(ZI(e.n + 1), ZShl(ZPow(big, e.n - 1), FS(e)))),
+                                ZShl(ZAbs(ZPow(ZJ(e.x), e.n)), FD(e)))
     [] OTHER -> TRUE
 TotalOk(e) ==
   CASE e.fn \in {"sqrt", "log2", "ln", "exp", "pow", "powi"} ->
